@@ -81,6 +81,12 @@ func (Driver) Run(c *core.Ctx) {
 			continue
 		}
 		c.Count("profile:" + al.profile)
+		for _, k := range al.unknownKinds {
+			c.Count("unknown-kind:" + k)
+			if k != "unrefined" && k != "dynamic" {
+				c.Count("refined-unknowns-seen-by:" + d.name)
+			}
+		}
 		for _, cl := range al.classes {
 			for _, part := range strings.Split(cl, "+") {
 				c.Count("arg:" + part)
